@@ -11,7 +11,11 @@ Decided here (equality of sets and independence of the number of spare variable 
   C15-R3  the index of a variable's symbolic copy is computed from the variable name only (name.len() - 1), never from
           the number of extra variables of the graph; get_extended_symbolic_graph gives every network variable the same
           number of copies; check_hctl_var_support accepts a graph exactly when every network variable has at least as many
-          copies as the tree has quantifier variables - no more is demanded (shared with C07-R4)."""
+          copies as the tree has quantifier variables - no more is demanded (shared with C07-R4);
+  C15-R4  "at least the required number": the tree whose variables are counted by the support check is the validated tree with
+          minimised variable names, the one that is evaluated (parser + preprocessing on the graph's symbolic context, then
+          check_hctl_var_support on that very tree) - counting the names as written would demand more copies than evaluation
+          uses (shared with C14-R2)."""
 import evalnode as E
 import lowlevel
 import norm
@@ -159,3 +163,17 @@ def run(prog, rep):
         rep.check(good, "C15-R3", "get_extended_symbolic_graph/uniform", f"{f.file}:{f.line}", "every network variable gets num_hctl_vars copies",
                   "the number of symbolic copies is not the same `num_hctl_vars` for every network variable")
     rep.floor("C15-R3", 8)
+    # the required number of copies is that of the tree that is evaluated, i.e. of the validated tree with minimised variable names
+    # (checking the tree as written would reject graphs that have enough copies): shared with C14-R2
+    rep.rule("C15-R4", "the support check is made on the validated (minimised) tree that is evaluated")
+    import c14
+    import parserspec as PS
+    sub2 = type(rep)("C15v")
+    veng = terms.Engine(prog, inline=True, hooks=c14.PanicHooks(prog, [PS.PARSER]))
+    roots = [f_ for f_ in pipelines.entry_points(prog) if any("str" in t_ for t_ in f_.param_tys)]
+    c14.check_validator_placement(prog, sub2, veng, roots)
+    for i in sub2.instances:
+        k_ = i.key.split(":", 1)[1] if ":" in i.key else i.key
+        if k_.endswith("/support") or k_.endswith("/parsed") or k_.endswith("/shape") or k_ in ("parse_and_validate", "parse_and_validate_extended"):
+            (rep.ok if i.verdict == "ok" else rep.violation if i.verdict == "violation" else rep.unresolved)("C15-R4", k_, i.where, i.detail)
+    rep.floor("C15-R4", 4)
